@@ -68,6 +68,15 @@ def run(ctx):
                 os.makedirs(root + '/S/zl'); os.makedirs(root + '/D')      # operands `S/big S/zl D`: after the file, 40 links the dispatcher creates itself
                 for k in range(40):
                     os.symlink('../big', f'{root}/S/zl/l{k}')
+            hard_links = 26 <= i < 28      # corpus: files with several names: each NAME is announced and copied
+            one_cpu = 28 <= i < 30         # corpus: the automatic worker count (0) when the process may use ONE CPU
+            if hard_links:
+                open(root + '/S/payload', 'wb').write(os.urandom(6000)); lens = lens + [6000]
+                os.link(root + '/S/payload', root + '/S/sub/payload-too'); lens = lens + [6000]
+                src_files = [(dp, f) for dp, _, fs in os.walk(root + '/S') for f in fs if os.path.isfile(os.path.join(dp, f)) and not os.path.islink(os.path.join(dp, f))]
+                for k, (dp, f) in enumerate(src_files[:4]):
+                    os.link(os.path.join(dp, f), f'{root}/S/sub/deep/hl{k}'); lens = lens + [os.path.getsize(os.path.join(dp, f))]
+                os.link(root + '/S/sub/deep/hl0', root + '/S/hl0-again'); lens = lens + [os.path.getsize(root + '/S/hl0-again')]
             total = sum(lens)
             driver = ['parfile', 'parblock'][i % 2]
             workers = rng.choice([1, 2, 8])
@@ -84,6 +93,10 @@ def run(ctx):
             elif i < 16 and i >= 12:  # corpus: creating a destination file fails with ENOENT (its directory vanished, a dangling link): an error, not "source vanished"
                 driver = 'parfile'; workers = [1, 4][i % 2]; updater = ['record', 'noop', 'channel', 'record'][i - 12]
                 fault = True; forced = f'fail openat D/ {1 + i % 3} {E["ENOENT"]}'
+            elif hard_links:
+                driver = ['parfile', 'parblock'][i % 2]; workers = 2; updater = 'record'; fault = False
+            elif one_cpu:
+                driver = ['parfile', 'parblock'][i % 2]; workers = 0; updater = ['record', 'noop'][i % 2]; fault = False
             elif deep_tree:
                 driver = ['parfile', 'parblock'][i % 2]; workers = 2; updater = ['record', 'noop'][i % 2]; fault = False
             elif in_flight:
@@ -96,6 +109,8 @@ def run(ctx):
                 plan.append('stall copy_file_range 200000'); ctx.count('all_blocks_in_flight_at_end_of_walk')
             elif deep_tree:
                 ctx.count('deep_tree_70_levels')
+            elif hard_links or one_cpu:
+                ctx.count('hard_linked_sources' if hard_links else 'one_cpu_automatic_workers')
             elif rng.random() < 0.5 and not slow_size:
                 plan.append(f'sched {ctx.seed * 13 + i} {rng.choice(["pct", "delay"])} {rng.randint(1, 3)}')
             if fault:
@@ -109,7 +124,7 @@ def run(ctx):
             elif updater == 'record' and rng.random() < 0.5:
                 argv += ['--stall-us', str(rng.choice([100, 500]))]
             argv += ['--', 'S/big', 'S/zl', 'D'] if in_flight else ['--', 'S', 'D']
-            r = scen.run_xcp(root, argv, plan=plan, timeout=120, binary=probe)
+            r = scen.run_xcp(root, argv, plan=plan, timeout=120, binary=probe, cpus={0} if one_cpu else None)
             ups, result, closed = parse_stream(r.stdout_full if hasattr(r, 'stdout_full') else r.stdout)
             ctx.count(f'driver.{driver}'); ctx.count(f'updater.{updater}'); ctx.count('faulted' if fault else 'unfaulted'); ctx.count(f'result.{result}'); ctx.count(f'bsize.{bsize if bsize < 1 << 60 else "u64::MAX"}')
             fired = any(e.get('inj') for e in r.trace)
